@@ -138,10 +138,10 @@ func updateHIDIConfiguration() error {
 	err = fs.WalkDir(templateConfig, configDir+"/factory", func(path string, entry fs.DirEntry, err error) error {
 		if entry.IsDir() {
 			// a factory directory is a directory of its own: a symbolic link in its place (into the user's tree, or to a target
-			// that is gone) would make everything below be written somewhere else, or not at all
-			if info, lerr := os.Lstat(path); lerr == nil && info.Mode()&os.ModeSymlink != 0 {
+			// that is gone) would make everything below be written somewhere else, or not at all - and so would a plain file
+			if info, lerr := os.Lstat(path); lerr == nil && !info.IsDir() {
 				if err := os.Remove(path); err != nil {
-					return fmt.Errorf("cannot replace \"%s\" link: %w", path, err)
+					return fmt.Errorf("cannot replace \"%s\": %w", path, err)
 				}
 			}
 			_, err := os.Stat(path)
@@ -157,6 +157,14 @@ func updateHIDIConfiguration() error {
 				return fmt.Errorf("cannot create \"%s\" directory: %w", path, err)
 			}
 			return nil
+		}
+		// a factory file is a regular file of its own: whatever else stands in its place - a symbolic link of any kind (to a
+		// file of the user, to a directory, to itself, to nowhere), a directory, a named pipe - is replaced, never followed,
+		// written into or opened
+		if info, lerr := os.Lstat(path); lerr == nil && !info.Mode().IsRegular() {
+			if err := os.RemoveAll(path); err != nil {
+				return fmt.Errorf("cannot replace \"%s\": %w", path, err)
+			}
 		}
 		src, err := os.OpenFile(path, os.O_RDONLY, 0)
 		if err != nil {
@@ -227,9 +235,10 @@ func updateHIDIConfiguration() error {
 
 	// create device blacklist.txt if does not exist.
 	blacklistPath := configDir + "/device blacklist.txt"
-	fd, err := os.OpenFile(blacklistPath, os.O_RDONLY, 0)
+	// (missing means that nothing has this name: a symbolic link whose target is gone is not missing, and is not followed)
+	_, err = os.Lstat(blacklistPath)
 	if os.IsNotExist(err) {
-		dst, err := os.OpenFile(blacklistPath, os.O_CREATE|os.O_WRONLY, 0o666)
+		dst, err := os.OpenFile(blacklistPath, os.O_CREATE|os.O_EXCL|os.O_WRONLY, 0o666)
 		if err != nil {
 			return fmt.Errorf("cannot open \"device blacklist.txt\": %w", err)
 		}
@@ -248,7 +257,6 @@ func updateHIDIConfiguration() error {
 		log.Info(fmt.Sprintf("Created \"%s\" file", blacklistPath), logger.Debug)
 		return nil
 	}
-	fd.Close()
 
 	return nil
 }
